@@ -123,6 +123,7 @@ func Run(r *mc.Run) {
 		{name: "keep1-aggressive", keep: 1, cfg: map[string]interface{}{"scorchMergePlanOptions": bx.AggressiveMergePlan}},
 		{name: "keep3-default", keep: 3},
 		{name: "keep2-partial-merge", keep: 2, cfg: map[string]interface{}{"scorchMergePlanOptions": bx.PartialMergePlan}},
+		{name: "keep2-nomerge-runs-of-batches-around-a-reopen", keep: 2, shrink: true, cfg: map[string]interface{}{"scorchMergePlanOptions": bx.NoMergePlan}},
 		{name: "keep8-nomerge-newest-segments-disappear", keep: 8, shrink: true, cfg: map[string]interface{}{"scorchMergePlanOptions": bx.NoMergePlan}},
 	}
 	if !r.Quick() {
@@ -151,6 +152,14 @@ func Run(r *mc.Run) {
 		ops, depth := ops, depth
 		if c.shrink {
 			ops, depth = shrinkAlphabet(), 4
+			if r.Quick() {
+				// quick tier: the runs family without the single-document updates and the forced merge
+				n := 4
+				if c.keep == 2 {
+					n = 3
+				}
+				ops = ops[:n]
+			}
 		}
 		seq := mc.Seq{N: len(ops), Depth: depth, Workers: 12, OpName: func(i int) string { return ops[i].String() }}
 		seq.Exec = func(path []int) (string, bool) {
@@ -286,7 +295,18 @@ func execPath(r *mc.Run, c conf, ops []op, path []int, rep map[string]any, stage
 		fail("newest-point-is-not-last-persisted-state", "newest rollback point carries seq=%d, the last batch was %d", q, seqNo)
 	}
 	if len(pts) > c.keep+2 {
-		fail("too-many-points", "%d rollback points with numSnapshotsToKeep=%d", len(pts), c.keep)
+		// not an oracle: old epochs are purged lazily (when the persister goes idle), so how many are
+		// still there when Close arrives depends on timing; what must not happen is that a point stays
+		// although many batches have been persisted since (below)
+		r.Count("states_closed_with_more_than_keep+2_points_(purge_still_pending)", 1)
+	}
+	// every batch persists at least one epoch, so the newest keep (+ a purge that has not run yet:
+	// generously +3) epochs cannot reach further back than that many batches
+	for pi, p := range pts {
+		if q := qOf(p); q >= 0 && q < seqNo-(c.keep+3) {
+			fail("stale-point-retained", "rollback point %d carries seq=%d although %d batches have been persisted since and numSnapshotsToKeep=%d", pi, q, seqNo-q, c.keep)
+			break
+		}
 	}
 	distinct := map[int]bool{}
 	for pi, p := range pts {
@@ -344,5 +364,14 @@ func execPath(r *mc.Run, c conf, ops []op, path []int, rep map[string]any, stage
 	if len(path) == 3 && path[0] != path[1] {
 		r.Sample(map[string]any{"configuration": c.name, "path": rep["path"], "points": len(pts), "layout": layout})
 	}
-	return strings.Join(states, "/") + "#" + layout, true
+	// a reopen changes neither the model nor the layout, but it does change in-memory bookkeeping
+	// (what the purger still has queued, where segment ids restart): histories that differ in where
+	// they reopened are kept apart
+	reopens := ""
+	for si, oi := range path {
+		if (c.shrink || !r.Quick()) && ops[oi].layout == "reopen" {
+			reopens += fmt.Sprintf("r%d", si)
+		}
+	}
+	return strings.Join(states, "/") + "#" + layout + "#" + reopens, true
 }
